@@ -10,7 +10,7 @@ MANIFEST = dict(
          "the stored prediction is that worker's output, residual = prediction - matching response. Learners enter by contract (they read "
          "only the operands they are given), which is what makes the prediction out-of-sample.",
     note="Bounded shapes (objects <= 4, predictors <= 2, responses <= 3, threads <= 3). Learners (PLS/MLR) are represented by their contract "
-         "through a pthread monitor; determinism of the learner is assumed. BootstrapRandomGroupsCV is not yet under contract (its building blocks, the split and the group generator, are). Termination of the rejection loop is not decided. "
+         "through a pthread monitor; determinism of the learner is assumed. BootstrapRandomGroupsCV is checked for worker count, seeding, private outputs and output wiring (worker bodies enter by contract; their building blocks, the split and the group generator, are checked separately). Termination of the rejection loop is not decided. "
          "'Equals a model refitted through the public API' as a numerical equality and finiteness of predictions are not decided.",
     technique="CBMC on the real cross-validation bodies with a pthread monitor playing the learner contract; loop contract on the rejection loop; bounded shapes")
 
@@ -44,6 +44,12 @@ def jobs(tier):
                 J.append(Job("KFoldCV@" + tag, "C05/cv.c", entry="h_KFoldCV", srcs=SRCS, kind="bounded", defines=d, unwind=max(n, xc, ny * max(nlv, 1), nth) + 4,
                              functions=["KFoldCV", "kfold_group_train_test_split"], bound="user labels %s, thread count %d; data symbolic; residual identity split A/B" % (lab, nth),
                              clause="k-fold with user labels: folds are a partition, each worker gets exactly the other folds, prediction and residual wiring (%s learner)" % ("PLS" if nlv else "MLR")))
+    for (n, nth, it, grp) in ([(3, 2, 2, 2), (3, 1, 3, 3), (3, 3, 3, 2), (2, 2, 3, 2)] if tier == "quick" else [(3, 2, 2, 2), (3, 1, 3, 3), (3, 3, 3, 2), (2, 2, 3, 2), (4, 2, 4, 3), (3, 4, 4, 2)]):
+        d = {"VC_NOBJ": n, "VC_NTH": nth, "VC_ITER": it, "VC_GROUP": grp}
+        tag = "n=%d,nth=%d,iter=%d,groups=%d" % (n, nth, it, grp)
+        J.append(Job("Bootstrap@" + tag, "C05/bootstrap.c", entry="h_Bootstrap", srcs=SRCS, kind="bounded", defines=d, unwind=max(n, it + nth, 4) + 3,
+                     functions=["BootstrapRandomGroupsCV"], bound="concrete configuration %s (MLR learner), data symbolic" % tag,
+                     clause="bootstrap driver: worker count, per-worker seed = base + global index, private zeroed outputs, shared inputs, output shapes, residual wiring"))
     # split: (nobj, xc, ny, G, K)
     for (n, xc, ny, g, k) in ([(4, 1, 2, 2, 2), (3, 2, 3, 3, 1), (4, 2, 1, 2, 3), (2, 1, 3, 1, 2)] if tier == "quick" else
                               [(4, 1, 2, 2, 2), (3, 2, 3, 3, 1), (4, 2, 1, 2, 3), (2, 1, 3, 1, 2), (5, 1, 2, 3, 2), (4, 2, 3, 4, 1)]):
